@@ -366,3 +366,136 @@ func ReplaceStrings(root any, subst map[string]string) {
 	}
 	walk(reflect.ValueOf(root))
 }
+
+// ---- heap meta-functions (native counterparts of the engine's type-directed walks) ------
+
+type heapSets struct {
+	ptrs  map[uintptr]bool
+	backs map[uintptr]bool
+	maps  map[uintptr]bool
+}
+
+func exempted(t reflect.Type, exempt []string) bool {
+	key := t.PkgPath() + "." + t.Name()
+	for _, e := range exempt {
+		if e == key {
+			return true
+		}
+	}
+	return false
+}
+
+func heapWalk(v reflect.Value, exempt []string, seen map[uintptr]bool, onPtr func(reflect.Value), onSlice func(reflect.Value), onMap func(reflect.Value)) {
+	switch v.Kind() {
+	case reflect.Pointer:
+		if v.IsNil() || seen[v.Pointer()] || exempted(v.Type().Elem(), exempt) {
+			return
+		}
+		seen[v.Pointer()] = true
+		if onPtr != nil {
+			onPtr(v)
+		}
+		heapWalk(v.Elem(), exempt, seen, onPtr, onSlice, onMap)
+	case reflect.Struct:
+		for i := 0; i < v.NumField(); i++ {
+			f := v.Field(i)
+			if f.CanAddr() {
+				f = reflect.NewAt(f.Type(), unsafe.Pointer(f.UnsafeAddr())).Elem()
+			}
+			heapWalk(f, exempt, seen, onPtr, onSlice, onMap)
+		}
+	case reflect.Array:
+		for i := 0; i < v.Len(); i++ {
+			heapWalk(v.Index(i), exempt, seen, onPtr, onSlice, onMap)
+		}
+	case reflect.Slice:
+		if v.IsNil() {
+			return
+		}
+		if onSlice != nil {
+			onSlice(v)
+		}
+		for i := 0; i < v.Len(); i++ {
+			heapWalk(v.Index(i), exempt, seen, onPtr, onSlice, onMap)
+		}
+	case reflect.Map:
+		if v.IsNil() {
+			return
+		}
+		if onMap != nil {
+			onMap(v)
+		}
+		it := v.MapRange()
+		for it.Next() {
+			heapWalk(it.Key(), exempt, seen, onPtr, onSlice, onMap)
+			heapWalk(it.Value(), exempt, seen, onPtr, onSlice, onMap)
+		}
+	case reflect.Interface:
+		if !v.IsNil() {
+			heapWalk(v.Elem(), exempt, seen, onPtr, onSlice, onMap)
+		}
+	}
+}
+
+func collectHeap(root any, exempt []string) heapSets {
+	hs := heapSets{map[uintptr]bool{}, map[uintptr]bool{}, map[uintptr]bool{}}
+	heapWalk(reflect.ValueOf(root), exempt, hs.ptrs, nil, func(s reflect.Value) {
+		if s.Cap() > 0 {
+			hs.backs[s.Slice3(0, s.Cap(), s.Cap()).Index(s.Cap()-1).Addr().Pointer()] = true
+		}
+	}, func(m reflect.Value) { hs.maps[m.Pointer()] = true })
+	return hs
+}
+
+// Disjoint: no pointer cell, slice backing array or map object is reachable from both a
+// and b; pointers to the exempt named types ("pkgpath.Name") are not followed.
+func Disjoint(a, b any, exemptTypes ...string) bool {
+	x, y := collectHeap(a, exemptTypes), collectHeap(b, exemptTypes)
+	for p := range x.ptrs {
+		if y.ptrs[p] {
+			return false
+		}
+	}
+	for p := range x.backs {
+		if y.backs[p] {
+			return false
+		}
+	}
+	for p := range x.maps {
+		if y.maps[p] {
+			return false
+		}
+	}
+	return true
+}
+
+// EmptySlices cuts every slice reachable from root to length zero in place, keeping its
+// capacity.
+func EmptySlices(root any, exemptTypes ...string) {
+	var cuts []reflect.Value
+	heapWalk(reflect.ValueOf(root), exemptTypes, map[uintptr]bool{}, nil, func(s reflect.Value) {
+		if s.CanSet() && s.Len() > 0 {
+			cuts = append(cuts, s)
+		}
+	}, nil)
+	for _, s := range cuts {
+		s.Set(s.Slice(0, 0))
+	}
+}
+
+// ReachablePointers: every pointer to a named struct type of package pkgPath reachable
+// from root, each once.
+func ReachablePointers(root any, pkgPath string) []any {
+	var out []any
+	heapWalk(reflect.ValueOf(root), nil, map[uintptr]bool{}, func(p reflect.Value) {
+		t := p.Type().Elem()
+		if t.PkgPath() == pkgPath && t.Kind() == reflect.Struct && t.Name() != "" && p.CanInterface() {
+			out = append(out, p.Interface())
+		}
+	}, nil, nil)
+	return out
+}
+
+func IsPointer(x any) bool {
+	return x != nil && reflect.TypeOf(x).Kind() == reflect.Pointer
+}
